@@ -783,14 +783,14 @@ impl<'a> GeneratorState<'a> {
         }
     }
 
-    pub(crate) fn generate_bnot(&mut self, expr: &Expr, pos: usize) -> Result<ExprType, Error>
+    pub(crate) fn generate_bnot(&mut self, expr: &Expr, pos: usize, high_byte: bool) -> Result<ExprType, Error>
     {
         match expr {
             Expr::Integer(i) => Ok(ExprType::Immediate(!*i)),
             _ => { 
-                let left = self.generate_expr(expr, pos, false, false)?;
-                let right = ExprType::Immediate(0xff);
-                self.generate_arithm(&left, &Operation::Xor(false), &right, pos, false)
+                let left = self.generate_expr(expr, pos, high_byte, false)?;
+                let right = ExprType::Immediate(if high_byte { 0xff00 } else { 0xff });
+                self.generate_arithm(&left, &Operation::Xor(false), &right, pos, high_byte)
             },
         }
     }
